@@ -262,7 +262,8 @@ def main(argv=None):
         used = 0
         if gi < 8:
             try:
-                small, used = shrink(rf, spec, key, max_seconds=shrink_budget,
+                # a group that already matches a known finding only needs enough shrinking to re-check the match
+                small, used = shrink(rf, spec, key, max_seconds=(shrink_budget if pre_entry is None else min(shrink_budget, 6.0)),
                                      keep_last=keep_last or bool(spec.get("fault")))
             except Exception:
                 errors.append((idx, "shrinker: " + traceback.format_exc()))
